@@ -29,7 +29,7 @@ def showOpSt : OpSt → String
 def parseSwReq : String → Option SwReq
   | "scan" => some .scan | "fix" => some .fix | "compromise" => some .compromise | "stop" => some .stop
   | "start" => some .start | "pause" => some .pause | "resume" => some .resume | "restart" => some .restart
-  | "disable" => some .disable | "enable" => some .enable | "close" => some .close | _ => none
+  | "disable" => some .disable | "enable" => some .enable | "close" => some .close | "execute" => some .execute | _ => none
 def parseItemReq : String → Option ItemReq
   | "scan" => some .scan | "checkhash" => some .checkhash | "repair" => some .repair | "restore" => some .restore
   | "corrupt" => some .corrupt | _ => none
